@@ -7,6 +7,7 @@ import (
 	"go/constant"
 	"go/token"
 	"go/types"
+	"sort"
 	"strings"
 
 	"golang.org/x/tools/go/ssa"
@@ -296,4 +297,74 @@ func c14NoLiveMapWalk(c *Ctx, r *Report) {
 	}
 	r.OK("R14.13", "interpreter functions that execute statement blocks", "", fmt.Sprintf("%d functions examined", n))
 	r.Floor("R14.13", "interpreter functions that execute statement blocks", n, 10)
+}
+
+// R14.14: indexed assignment does not replace a collection by an empty one.
+// On the way down x[i][j]… = v the helpers create a level where there is none
+// and turn a scalar into a collection; a slot that already holds a map or an
+// array is kept whatever the next index is (a map takes an int index as a
+// key), so its contents are not lost.
+func c14KeepCollections(c *Ctx, r *Report) {
+	r.Rule("R14.14", "indexed assignment does not replace a collection by an empty one: in the functions reachable from Mlrval.PutIndexed, a store of a fresh empty map or array (FromEmptyMap, FromEmptyArray, NewMlrvalForAutoDeepen) into a slot of an existing array is dominated by the false side of IsArrayOrMap() on that slot — a test of IsMap() or IsArray() alone lets the other kind of collection be wiped (x = [{\"a\":1}]; x[1][2] = 5)")
+	var root *ssa.Function
+	if m := c.LookupMethod("pkg/mlrval", "Mlrval", "PutIndexed"); m != nil {
+		root = c.SSAFunc(m)
+	}
+	if root == nil {
+		r.Undecided("R14.14", "PutIndexed", "", "anchor not found")
+		return
+	}
+	n := 0
+	reach := staticReach(c, root)
+	reach[root] = true
+	var fns []*ssa.Function
+	for f := range reach {
+		if f.Blocks != nil && f.Pkg != nil && strings.HasSuffix(f.Pkg.Pkg.Path(), "/pkg/mlrval") {
+			fns = append(fns, f)
+		}
+	}
+	sort.Slice(fns, func(i, j int) bool { return SSAName(fns[i]) < SSAName(fns[j]) })
+	for _, fn := range fns {
+		k := 0
+		for _, b := range fn.Blocks {
+			for _, in := range b.Instrs {
+				st, ok := in.(*ssa.Store)
+				if !ok {
+					continue
+				}
+				ia, ok := st.Addr.(*ssa.IndexAddr)
+				if !ok {
+					continue
+				}
+				call, ok := st.Val.(*ssa.Call)
+				if !ok {
+					continue
+				}
+				cn := CalleeName(&call.Call)
+				if !(strings.HasSuffix(cn, ".FromEmptyMap") || strings.HasSuffix(cn, ".FromEmptyArray") || strings.HasSuffix(cn, ".NewMlrvalForAutoDeepen")) {
+					continue
+				}
+				n++
+				k++
+				key := fmt.Sprintf("%s: empty collection stored into a slot #%d", SSAName(fn), k)
+				guarded := false
+				for _, g := range GuardsAt(b) {
+					cond, pol := stripNot(g.Cond, g.Polarity)
+					gc, ok := cond.(*ssa.Call)
+					if !ok || pol || !strings.HasSuffix(CalleeName(&gc.Call), ".IsArrayOrMap") || len(gc.Call.Args) == 0 {
+						continue
+					}
+					// the tested value is a load of the same slot
+					if ld, ok := gc.Call.Args[0].(*ssa.UnOp); ok && ld.Op == token.MUL {
+						if ia2, ok := ld.X.(*ssa.IndexAddr); ok && sameValue(ia2.X, ia.X) && (ia2.Index == ia.Index || sameValue(ia2.Index, ia.Index)) {
+							guarded = true
+						}
+					}
+				}
+				r.Check(guarded, "R14.14", key, c.Rel(st.Pos()), "only where the slot holds no collection",
+					fmt.Sprintf("%s stores a fresh empty collection into an array slot without having found that the slot holds neither a map nor an array: an existing collection of the other kind is wiped by the assignment", SSAName(fn)))
+			}
+		}
+	}
+	r.Floor("R14.14", "stores of empty collections into array slots under PutIndexed", n, 2)
 }
